@@ -489,7 +489,7 @@ class ComparisonOperator(BinaryOperator):
     def term(self, time="t"):
         element_1 = extractTerm(self.element_1, time)
         element_2 = extractTerm(self.element_2, time)
-        return "(" + str(element_1) + "){}(".format(self.sign) + str(element_2) + ")"
+        return "bool((" + str(element_1) + "){}(".format(self.sign) + str(element_2) + "))"
 
     def resolve_dimensions(self):
         return -1
@@ -1083,7 +1083,7 @@ class Exp(UnaryOperator):
     """
 
     def term(self, time="t"):
-        return "np.exp("+self.element.term(time)+")"
+        return "np.exp(float("+self.element.term(time)+"))"
 
 
 class DT(Function):
